@@ -25,10 +25,10 @@ pub fn install_panic_hook() {
                 "<non-string panic>".to_string()
             };
             let loc = info.location().map(|l| l.file().to_string()).unwrap_or_default();
-            let in_muxide = loc.contains("/repo/") || loc.starts_with("src/") || loc.contains("muxide");
-            let in_harness = loc.contains("/verif/harness/") || loc.contains("harness/src");
+            let in_muxide = loc.starts_with("/repo/") || loc.contains("muxide");
+            let in_harness = !in_muxide && (loc.starts_with("src/") || loc.contains("/verif/harness/") || loc.contains("harness/src"));
             LAST_PANIC.with(|p| *p.borrow_mut() = Some(format!("{} @ {}", normalise_msg(&msg), short_file(&loc))));
-            if in_harness && !in_muxide {
+            if (in_harness && !in_muxide) || std::env::var_os("VERIF_DEBUG_PANIC").is_some() {
                 eprintln!("HARNESS PANIC: {} at {:?}", msg, info.location());
             }
         }));
